@@ -228,7 +228,18 @@ def post_rdata_read(an, cb, t, pay):
     return [le(add(cur, rd), L)]
 
 
+def post_counted_prefix(minimum):
+    def f(an, cb, t, pay):
+        # Ok(n): minimum <= n <= len(octets)
+        L = _len_of_arg(an, t['args'][0])
+        n = lin(pay)
+        return [le(lin(c=minimum), n), le(n, L)] if L is not None else []
+    return f
+
+
 POSTS = {
+    'rr::rdata::std13::validate_character_string': post_counted_prefix(1),
+    'rr::rdata::opt::validate_option': post_counted_prefix(4),
     'rr::rdata::Rdata::read': post_rdata_read,
     'name::wire::parse_pointer': post_parse_pointer,
     'name::Name::try_from_compressed': post_parse_name,
@@ -255,7 +266,12 @@ def tot_wire_repr(an, b, t, res):
 
 def tot_rdata_octets(an, b, t, res):
     L = lin('len:(*_%d)' % t['dest']['l'])
-    return [le(L, lin(c=65535))]
+    out = [le(L, lin(c=65535))]
+    a = t['args'][0]
+    if is_place(a):
+        src = lin('len:%s.octets' % an.fn.canon_str({'l': a['pl']['l'], 'p': a['pl']['p'] + ['deref'], 'ty': ''}))
+        out += eq(L, src)
+    return out
 
 
 def tot_min(an, b, t, res):
@@ -407,7 +423,7 @@ def t1_unwrap(an, b, F):
         cb, ct = oc
         n = callee_name(ct)
         # x[a..b].try_into::<[u8; N]>().unwrap(): width of the range is N
-        if n.endswith('TryInto<U>>::try_into') or n.endswith('TryFrom<&[T]>>::try_from') or 'try_into' in n:
+        if n.endswith('TryInto<U>>::try_into') or n.endswith('TryFrom<&[T]>>::try_from') or 'try_into' in n or n.endswith('>::try_from'):
             dst_ty = fn.local_ty(ct['dest']['l'])
             m = re.search(r'Result<(?:&)?\[u8; (\d+)\]', dst_ty)
             src = ct['args'][0]
@@ -582,6 +598,43 @@ def forwards_to(fn, t, callee_suffixes, same_args=True):
     return True
 
 
+def _prove_at_returns(an, fn, top, sub, gf):
+    variant = top[0][1]
+    sites = []
+    other = False
+    for (b, i, kind, node) in fn.defs().get(0, []):
+        if fn.blocks[b]['cleanup']:
+            continue
+        if kind == 'assign' and node['rv']['k'] == 'agg' and node['rv'].get('ak') == 'adt':
+            if node['rv']['def'].endswith('::' + variant):
+                sites.append((b, i, node))
+            continue
+        if kind == 'call' and 'FromResidual' in callee_name(node):
+            continue
+        other = True
+    if other or not sites:
+        return 0
+    for b, i, node in sites:
+        o = node['rv']['ops'][0]
+        for p in sub:
+            # follow a tuple field through the aggregate that built the payload
+            if not is_place(o) or o['pl']['p']:
+                return 0
+            sd = fn.single_def(o['pl']['l'])
+            if not (sd and sd[2] == 'assign' and sd[3]['rv']['k'] == 'agg' and sd[3]['rv'].get('ak') == 'tuple' and p[0] == 'f'):
+                return 0
+            o = sd[3]['rv']['ops'][p[1]]
+        an._site = (b, i)
+        e = an.ev_op(o)
+        if e is None:
+            return 0
+        goals = gf(an, e)
+        ok, facts, res = an.prove(b, i, goals)
+        if not ok:
+            return 0
+    return len(sites)
+
+
 def verify_post(R, F, S, rule, gpath, specs, wrapper_of=()):
     """specs: [(payload sub-path, description, goal_fn(an, expr) -> [constraints])].  The bound must hold for the value
     returned in Ok(..) / Some(..) at every success return of gpath."""
@@ -591,6 +644,12 @@ def verify_post(R, F, S, rule, gpath, specs, wrapper_of=()):
     top = [('down', 'Some'), ('f', 0)] if rty.startswith('std::option::Option') else [('down', 'Ok'), ('f', 0)]
     imm = params_immutable(fn, range(1, fn.argc + 1))
     for sub, desc, gf in specs:
+        # first try the success returns themselves: the guards that justify the bound often sit between the statement
+        # that computed the value and the return
+        direct = _prove_at_returns(an, fn, top, list(sub), gf)
+        if direct:
+            R.require(True, rule, '%s|post:%s' % (gpath, desc), fn.where(), 'proved at each of the %d success returns: %s' % (direct, desc), '')
+            continue
         leaves = origins.trace(fn, 0, top + list(sub))
         ok, det = prove_value(an, leaves, lambda e, gf=gf: gf(an, e), forward_ok=lambda b, t, path: forwards_to(fn, t, wrapper_of))
         R.require(ok and imm, rule, '%s|post:%s' % (gpath, desc), fn.where(), 'every value returned on success satisfies %s (%d producing statements)' % (desc, len(leaves)),
@@ -708,3 +767,55 @@ def prove_at(an, b, i, goals):
     ok, facts, res = an.prove(b, i, goals)
     unmet = '; '.join(fmt(g) + ' <= 0' for g, r in zip(goals, res) if not r)
     return ok, unmet
+
+
+# ------------------------------------------------------------------ T3 premise: a Vec assembled from bounded pieces
+def vec_pieces_bound(F, fn, b, limit=65535):
+    """`vec.try_into::<Box<Rdata>>().unwrap()`: the Vec starts empty (Vec::new / with_capacity) and grows only through
+    extend_from_slice calls that are not on a cycle; every piece is Name::wire_repr() (<= 255) or a slice whose length
+    E5 bounds by a small constant.  The sum of the bounds must not exceed 65535."""
+    S = make_summary(F)
+    an = Analyzer(fn, F, S)
+    t = fn.blocks[b]['term']
+    oc = origin_call(an, t['args'][0]['pl']['l'])
+    if not oc:
+        return False, 'no producing conversion'
+    cb, ct = oc
+    src = ct['args'][0]
+    if not is_place(src):
+        return False, 'conversion source is not a place'
+    v = fn.canon(src['pl'])['l']
+    if not fn.local_ty(v).startswith('std::vec::Vec<u8>'):
+        return False, 'conversion source is %s, not a Vec<u8>' % fn.local_ty(v)
+    defs = [d for d in fn.defs().get(v, []) if not fn.blocks[d[0]]['cleanup']]
+    if len(defs) != 1 or defs[0][2] != 'call' or not re.search(r'Vec::<T>::(new|with_capacity)$|Vec::<T, A>::with_capacity', callee_name(defs[0][3])):
+        return False, 'the Vec is not created empty by Vec::new / with_capacity'
+    total = 0
+    pieces = []
+    for bb, tt in fn.calls():
+        muts = [a for a in tt['args'] if is_place(a) and fn.local_ty(a['pl']['l']).startswith('&mut ') and fn.canon({'l': a['pl']['l'], 'p': a['pl']['p'] + ['deref'], 'ty': ''})['l'] == v and not fn.canon({'l': a['pl']['l'], 'p': a['pl']['p'] + ['deref'], 'ty': ''})['p']]
+        if not muts:
+            continue
+        n = callee_name(tt)
+        if not n.endswith('Vec::<T, A>::extend_from_slice'):
+            return False, 'the Vec is also modified by %s' % n
+        if bb in fn.reachable(fn.succs()[bb]):
+            return False, 'extend_from_slice at %s is inside a loop' % fn.where(bb)
+        piece = tt['args'][1]
+        txt = paths.show_operand(fn, piece)
+        if re.search(r'Name::wire_repr\(', txt) and not re.search(r'Index|index', txt):
+            total += 255
+            pieces.append('name<=255')
+            continue
+        Ls = lin(an.atom_len({'l': piece['pl']['l'], 'p': piece['pl']['p'] + ['deref'], 'ty': ''}))
+        got = None
+        for K in (2, 4, 6, 16, 20, 255):
+            ok, facts, res = an.prove(bb, None, [le(Ls, lin(c=K))])
+            if ok:
+                got = K
+                break
+        if got is None:
+            return False, 'cannot bound the piece %s appended at %s' % (txt[:80], fn.where(bb))
+        total += got
+        pieces.append('slice<=%d' % got)
+    return total <= limit and bool(pieces), 'pieces %s, total <= %d' % (pieces, total)
